@@ -148,6 +148,7 @@ fn plan_for(prop: &str, a: &Args) -> Plan {
 
 fn finish(c: &Collector, a: &Args, extra: J) {
     let mut j = c.to_json();
+    j.put("observe_debug_fallbacks", real::DEBUG_FALLBACKS.load(std::sync::atomic::Ordering::Relaxed));
     j.put("extra", extra);
     let text = j.dump();
     match &a.out {
